@@ -948,3 +948,6 @@ def all_table_rules(chk, fx):
     from . import golden, goldenreg
     golden.group(chk, fx, "SORTSL", "reference summaries: stable sort of rule_infos and the per-nonterminal rule slices",
                  goldenreg.GROUPS["SORTSL"])
+    from . import deporder
+    deporder.group(chk, fx, "DEPORD-T", "dependence order of statements in the table construction",
+                   goldenreg.DEP_GROUPS["TAB"])
